@@ -168,6 +168,72 @@ def run(ctx):
         ok3 = norm(parts[0]) == "s[0:idx1]" and norm(parts[-1]) == "s[idx2 + 1:]"
         ctx.check("C18.interp", fs, splice[0], ok3, "text outside the placeholder is not preserved",
                   site="FuncS.execute: s[0:idx1] + value + s[idx2+1:]")
+    placeholder_state(ctx, model)
+
+
+def placeholder_state(ctx, model):
+    """Format state of one placeholder must not leak into the next: inside the placeholder loop of FuncS.execute, a
+    variable that some branch of the loop body sets (the parsed `#spec` parts) and that the loop body reads must
+    have been assigned earlier in the SAME iteration on every path to that read."""
+    from ..cfg import CFG
+    from ..pathcount import must_pass
+    from .C05 import _as_func
+    fs = model.method(P, "FuncS", "execute")
+    loops = [n for n in fs.node.body if isinstance(n, ast.While)]
+    if len(loops) != 1:
+        ctx.broken("FuncS.execute", "placeholder loop not found")
+    lp = loops[0]
+    cond_assigned = set()
+    for n in ast.walk(lp):
+        if isinstance(n, (ast.If, ast.Try, ast.For, ast.While)) and n is not lp:
+            for a in ast.walk(n):
+                if isinstance(a, (ast.Assign, ast.AugAssign)):
+                    for t in (a.targets if isinstance(a, ast.Assign) else [a.target]):
+                        if isinstance(t, ast.Name):
+                            cond_assigned.add(t.id)
+    top_assigned_at = {}
+    for i, st in enumerate(lp.body):
+        if isinstance(st, ast.Assign):
+            for t in st.targets:
+                if isinstance(t, ast.Name):
+                    top_assigned_at.setdefault(t.id, i)
+    g = CFG(_as_func(lp.body), implicit_exc=False)
+
+    def assigned(node, label):
+        a = node.ast
+        if a is None or node.kind == "for":
+            return None
+        out = set()
+        if isinstance(a, ast.Assign):
+            for t in a.targets:
+                if isinstance(t, ast.Name):
+                    out.add(t.id)
+        return out or None
+
+    defs = must_pass(g, assigned)
+    n = 0
+    reported = set()
+    for node in g.nodes:
+        a = node.ast
+        if a is None or node.id not in defs:
+            continue
+        a = a.iter if node.kind == "for" else a
+        reads = {x.id for x in ast.walk(a) if isinstance(x, ast.Name) and isinstance(x.ctx, ast.Load)}
+        if isinstance(a, ast.AugAssign) and isinstance(a.target, ast.Name):
+            reads.add(a.target.id)
+        for v in sorted(reads & cond_assigned):
+            n += 1
+            ok = v in defs[node.id]
+            if not ok and v in reported:
+                continue
+            if not ok:
+                reported.add(v)
+            ctx.check("C18.interp", fs, a if not isinstance(a, ast.expr) else a, ok,
+                      f"`{v}` is set by a branch of the placeholder loop and read here without having been (re)set "
+                      f"earlier in the same iteration: the format of one placeholder leaks into the next",
+                      expr=f"placeholder state {v}", site=f"FuncS.execute: `{v}` reset for every placeholder before use")
+    if n < 5:
+        ctx.broken("FuncS.execute", f"only {n} reads of per-placeholder state found")
 
 
 def ckl_first_element(ctx, model):
